@@ -25,6 +25,8 @@ func init() {
 		Assumptions:  []string{"a command is judged against the capability set of the server state in which its first byte is received; the server never withdraws syntax it offered (pre-auth set is a subset of the post-auth set)"},
 		QuickRuns:    6000,
 		ThoroughRuns: 200000,
+		RaceDivisor:  6,
+		RaceScope:    []string{"imapclient.", "imapwire."},
 		Run:          runC18,
 	})
 }
